@@ -470,7 +470,7 @@ class Tensor:
     
     def __iter__(self):
         self._current_idx = 0
-        return self
+        return (self[i] for i in range(len(self)))
     
     def __next__(self) -> 'Tensor':
         if self._current_idx >= len(self):
